@@ -330,6 +330,21 @@ def primitives(interp):
         from . import opendict
         return opendict.make(interp, name, key_td, mk_key, key_of, value_tds, mk_value)
     ns["open_dict"] = open_dict
+    # ---- ghost file system (C19); executable twin: temporary directory
+    from . import fs_model
+    ns["ghost_file"] = _b("ghost_file")(fs_model.ghost_file)
+    ns["ghost_remove"] = _b("ghost_remove")(fs_model.ghost_remove)
+    ns["file_text"] = _b("file_text")(fs_model.file_text)
+    ns["Text"] = TypeDesc("text", None)
+
+    @_b("TextLen")
+    def text_len(interp, maxlen=None):
+        return TypeDesc("text", maxlen)
+    ns["TextLen"] = text_len
+
+    # ---- exact comparison of a float with a rational (C14)
+    from . import floats_model
+    ns["within"] = _b("within")(floats_model.within)
 
     # ---- type descriptors for harness parameters
     ns["Int"] = TypeDesc("int", None, None)
